@@ -111,4 +111,11 @@ TEXT = {
         "design_ref": "DESIGN.md section 2, C17",
         "level_note": "Trusted base: synctest fake time, hlsim, reference client. IPv4 addresses from a fixed pool of 7; restart = rebuild of all stores and the server from disk in-process.",
     },
+    "C11": {
+        "engine": "E1 bubble world",
+        "technique": "model-based stateful property testing (rapid state machine): file list, get-info, download reply and the on-disk tree compared with a reference namespace model after every generated file-management request",
+        "level_text": "Generated histories of file-management requests on generated trees; three views (list, info, download reply) and the disk are reconciled with one model after every step, entries are always addressed by the name the list showed, and side files are tracked explicitly so a fork left behind by move/rename/delete is seen immediately.",
+        "design_ref": "DESIGN.md section 2, C11",
+        "level_note": "Trusted base: reference namespace model in harness/props/c11_test.go, hlref decoders, x/text Mac-Roman table (shared with mobius: encoder/decoder inverse-ness is checked, not the table), Go regexp for ignore patterns.",
+    },
 }
